@@ -13,7 +13,8 @@
 (*                                                                         *)
 (* Variant types:                                                          *)
 (*   [k |-> "obj", f |-> <<ma, mb, mc>>, of |-> "-"]  object over the      *)
-(*        string fields a, b, c; each field abs(ent) / opt(ional) / req    *)
+(*        string fields a, b, c; each field abs(ent) / opt(ional) / req /  *)
+(*        rnul = required AND nullable (the payload may carry null)        *)
 (*   [k |-> "str"|"int"|"float"|"bool", f |-> <<>>, of |-> "-"]            *)
 (*   [k |-> "list"|"map", f |-> <<>>, of |-> "str"|"int"]                  *)
 (*   [k |-> "anymap", ...]     dict[str, Any] (what the generator emits    *)
@@ -45,10 +46,14 @@ KV(k, x) == [k |-> k, v |-> x]
 
 IsNum(x)  == x.t \in {"i", "f"}
 Tenths(x) == IF x.t = "i" THEN x.v * 10 ELSE x.v
-NonNull(es) == SelectSeq(es, LAMBDA e : e.v.t # "null")
 
-\* JSON equality as the property means it: numbers compare numerically (1 = 1.0), booleans and strings are
-\* not numbers, a key whose value is null is the same as an absent key (tolerance, DESIGN 2.6 rule 2).
+Keys(p)   == {p.v[i].k : i \in 1..Len(p.v)}
+Get(p, k) == (p.v[CHOOSE i \in 1..Len(p.v) : p.v[i].k = k]).v
+
+\* Eq(x, y): the (re-)encoded value x carries everything the payload y carries.  Numbers compare numerically
+\* (1 = 1.0), booleans and strings are not numbers.  Tolerance (DESIGN 2.6 rule 2): a key that x has with value
+\* null and y does not have at all is ignored (an absent optional is re-encoded as null); the converse is NOT
+\* tolerated - a key the payload carries, even with an explicit null, must come back.
 RECURSIVE Eq(_, _)
 Eq(x, y) ==
   IF IsNum(x) /\ IsNum(y) THEN Tenths(x) = Tenths(y)
@@ -56,14 +61,10 @@ Eq(x, y) ==
   ELSE CASE x.t = "null" -> TRUE
          [] x.t = "l" -> /\ Len(x.v) = Len(y.v)
                          /\ \A i \in 1..Len(x.v) : Eq(x.v[i], y.v[i])
-         [] x.t = "o" -> LET nx == NonNull(x.v)
-                             ny == NonNull(y.v)
-                         IN /\ Len(nx) = Len(ny)
-                            /\ \A i \in 1..Len(nx) : nx[i].k = ny[i].k /\ Eq(nx[i].v, ny[i].v)
+         [] x.t = "o" -> /\ \A k \in Keys(y) : k \in Keys(x) /\ Eq(Get(x, k), Get(y, k))
+                         /\ \A k \in Keys(x) \ Keys(y) : Get(x, k).t = "null"
          [] OTHER -> x.v = y.v
 
-Keys(p)   == {p.v[i].k : i \in 1..Len(p.v)}
-Get(p, k) == (p.v[CHOOSE i \in 1..Len(p.v) : p.v[i].k = k]).v
 ObjRestrict(p, K) == O(SelectSeq(p.v, LAMBDA e : e.k \in K))
 
 \* ------------------------------------------------------------------ types
@@ -75,8 +76,9 @@ AnyMap    == [k |-> "anymap", f |-> <<>>, of |-> "-"]
 
 WithMode(T, m) == {FieldNames[i] : i \in {j \in 1..3 : T.f[j] = m}}
 Extra(dp)      == IF dp = "-" THEN {} ELSE {dp}
-Required(T, dp) == WithMode(T, "req") \cup Extra(dp)
-Declared(T, dp) == WithMode(T, "req") \cup WithMode(T, "opt") \cup Extra(dp)
+Required(T, dp) == WithMode(T, "req") \cup WithMode(T, "rnul") \cup Extra(dp)
+Declared(T, dp) == Required(T, dp) \cup WithMode(T, "opt")
+ModeOf(T, k)    == IF \E i \in 1..3 : FieldNames[i] = k THEN T.f[CHOOSE i \in 1..3 : FieldNames[i] = k] ELSE "req"
 
 DiscProp(u) == IF u.disc.mode = "none" THEN "-" ELSE u.disc.prop
 MapIdx(u, tag) ==
@@ -95,7 +97,8 @@ RefDecode(p, T, dp) ==
   CASE T.k = "obj" ->
          IF /\ p.t = "o"
             /\ Required(T, dp) \subseteq Keys(p)
-            /\ \A k \in Keys(p) \cap Declared(T, dp) : Get(p, k).t = "s"
+            /\ \A k \in Keys(p) \cap Declared(T, dp) :
+                  Get(p, k).t = "s" \/ (Get(p, k).t = "null" /\ ModeOf(T, k) = "rnul")
          THEN Ok(ObjRestrict(p, Declared(T, dp))) ELSE Fail
     [] T.k = "str"   -> IF p.t = "s" THEN Ok(p) ELSE Fail
     [] T.k = "bool"  -> IF p.t = "b" THEN Ok(p) ELSE Fail
@@ -160,10 +163,12 @@ ImplPrim(p, k) ==
 
 ImplDecode(p, T, dp) ==
   CASE T.k = "obj" ->
-         \* make_dict_structure_fn: required keys must be present, unknown keys are ignored, str(x) per field
+         \* make_dict_structure_fn: required keys must be present (null counts as present), unknown keys are ignored,
+         \* str(x) per `str` field, `str | None` fields (optional / required-nullable) keep null
          IF p.t = "o" /\ Required(T, dp) \subseteq Keys(p)
          THEN LET r == ObjRestrict(p, Declared(T, dp))
-              IN Ok(O([i \in 1..Len(r.v) |-> KV(r.v[i].k, IF r.v[i].v.t = "null" THEN Null ELSE PyStr(r.v[i].v))]))
+              IN Ok(O([i \in 1..Len(r.v) |->
+                        KV(r.v[i].k, IF r.v[i].v.t = "null" /\ ModeOf(T, r.v[i].k) # "req" THEN Null ELSE PyStr(r.v[i].v))]))
          ELSE Fail
     [] T.k \in {"str", "int", "float", "bool"} -> ImplPrim(p, T.k)
     [] T.k = "list" ->
@@ -254,7 +259,7 @@ Relation(u, c, t) ==
         C  == u.vars[c]
         T  == u.vars[t]
     IN IF c = t THEN "same"
-       ELSE IF WithMode(C, "req") = {} THEN "all_optional"
+       ELSE IF Required(C, "-") = {} THEN "all_optional"
        ELSE IF Declared(C, dp) \subseteq Declared(T, dp) /\ Declared(C, dp) # Declared(T, dp) THEN "subset"
        ELSE "overlap"
   ELSE "-"
@@ -271,4 +276,13 @@ LocusE(p, u, o, e) ==
       disc        |-> u.disc.mode,
       ekind       |-> o.ekind]
 Locus(p, u, o) == LocusE(p, u, o, ChooseVariant(p, u))
+
+\* HistoryIndependent: decoding is a function of (payload, union) alone - ChooseVariant and ImplChoose have no other
+\* argument - so what the converter does with a union after it has decoded ANOTHER union (same discriminator
+\* property, same value -> schema-name table, different variant classes) must equal what it does in a fresh process.
+SameOutcome(o1, o2) ==
+  /\ o1.out = o2.out
+  /\ o1.chosen = o2.chosen
+  /\ o1.ckind = o2.ckind
+  /\ (o1.out = "ok" => Eq(o1.reenc, o2.reenc) /\ Eq(o2.reenc, o1.reenc))
 =============================================================================
